@@ -10,7 +10,7 @@ import tempfile
 
 from . import core
 
-MIRI_TARGET = os.path.join(core.BUILD, "miri")
+MIRI_TARGET = os.path.join(core.BUILD, "miri" + core._ALT)
 
 
 def _miri_cmd(shard, nshards):
@@ -22,7 +22,7 @@ def miri_roundtrips(nshards=20, timeout=1500):
     env = dict(os.environ)
     env.update({"CARGO_NET_OFFLINE": "true", "CARGO_TARGET_DIR": MIRI_TARGET, "MIRIFLAGS": "-Zmiri-disable-isolation"})
     hdir = core.HARNESS
-    out = {"status": "ok", "shards_run": 0, "conversions": 0, "ub_reports": [], "mismatches": 0}
+    out = {"status": "ok", "shards_run": 0, "conversions": 0, "imports": 0, "ub_reports": [], "mismatches": 0}
     # shard 0 first: builds everything once
     try:
         p = subprocess.run(_miri_cmd(0, nshards), cwd=hdir, env=env, stdout=subprocess.PIPE, stderr=subprocess.PIPE, text=True, timeout=timeout)
@@ -36,10 +36,14 @@ def miri_roundtrips(nshards=20, timeout=1500):
 
     def absorb(p):
         out["shards_run"] += 1
-        m = re.search(r"MIRI-CONV done n=([0-9]+) mismatches=([0-9]+)", p.stdout)
+        m = re.search(r"MIRI-CONV done n=([0-9]+) mismatches=([0-9]+) imports=([0-9]+)", p.stdout)
         if m:
             out["conversions"] += int(m.group(1))
             out["mismatches"] += int(m.group(2))
+            out["imports"] += int(m.group(3))
+            for line in p.stdout.splitlines():
+                if "ROUND TRIP DIFFERS" in line or "IMPORT ERROR" in line:
+                    out.setdefault("mismatch_lines", []).append(line[:200])
         if "Undefined Behavior" in p.stderr or (p.returncode != 0 and not m):
             frames = re.findall(r"--> (\S+:[0-9]+)", p.stderr)
             out["ub_reports"].append({"first_frames": frames[:4], "head": p.stderr[p.stderr.find("error"):][:400]})
@@ -90,3 +94,18 @@ def valgrind_cli(inputs, timeout=120):
             elif st == "timeout":
                 out["status"] = "partial-timeout"
     return out
+
+
+def fold_miri(res, prop):
+    """run the Miri supplement and fold it into a Result: UB -> violation, anything else that is not a clean run -> inconclusive"""
+    m = miri_roundtrips()
+    for rep in m["ub_reports"]:
+        first = (rep["first_frames"] or ["?"])[0]
+        res.violation(["miri-undefined-behaviour", re.sub(r":[0-9]+$", "", first)], {"tool": "miri", "report": rep},
+                      {"repro": "cd /verif/harness && MIRIFLAGS=-Zmiri-disable-isolation cargo +nightly miri run --offline --bin miri_conv -- <shard> 20"})
+    if m["status"] != "ok":
+        res.inconclusive += 1
+        res.notes.append("Miri supplement inconclusive: %s %s" % (m["status"], m.get("detail", "")[:200]))
+    res.count("miri_conversions_interpreted", m["conversions"])
+    res.count("miri_imports_interpreted", m["imports"])
+    return m
